@@ -54,7 +54,7 @@ static int c11_main(int argc,char **argv){
   while((line=readline_(stdin))){
     int n=split(line,tok,16);
     if(n==0){ free(line); continue; }
-    if(!strcmp(tok[0],"case")){ printf("== case %s\n",n>1?tok[1]:"?"); fflush(stdout); }
+    if(!strcmp(tok[0],"case")){ printf("== case %s\n",n>1?tok[1]:"?"); fflush(stdout); case_watchdog(); }
     else if(!strcmp(tok[0],"setup")&&n>=5){
       vorbis_info evi; vorbis_dsp_state evd; vorbis_comment evc; ogg_packet h0,h1,h2; int rc,i,hs=atoi(tok[4]); codec_setup_info *ci;
       if(live){ vb.pcm=NULL; vorbis_block_clear(&vb); vorbis_dsp_clear(&vd); vorbis_comment_clear(&vc); vorbis_info_clear(&vi); live=0; }
